@@ -354,6 +354,30 @@ theorem C12_mbox_exit_zero_iff (entry : Nat → Bytes) (box : Bytes) (tr : List 
   | zero => simp [Committed]
   | succ k => simp [Committed]
 
+/-- **Any failing write ⇒ temporary failure, nothing of the delivery stays** (every interleaving, no hypothesis on
+lengths).  `hardError e`: a `read` or `write` that fails with anything but EINTR, or a failing `fsync`.  The acceptor takes
+EVERY chunking of the entry into `write` events, hence every buffered writer — substdio's 1024-byte `outbuf` flushed when a
+put finds it full — at every entry length, in particular the lengths `k*1024 (+1)` at which the failing `write` is the flush
+forced by the final one-byte put: a trace in which the program carries on after such an error (further `write`, `fsync`,
+`exit 0`) is not a trace of the model, so the real program doing that is a DISAGREE.  Once process `i` has seen a hard
+error it can only exit with 111, never counts as synced, and (if no `flock`/`ftruncate` fails) is not among the committed
+deliveries whose entries make up the file (`C12_mbox_serial`, `C12_mbox_final`; alone: `C12_mbox_rollback`, file = box). -/
+theorem C12_mbox_error_fails (entry : Nat → Bytes) (box : Bytes) (tr1 tr2 : List (Nat × Mb.Ev)) (i : Nat) (e : Mb.Ev)
+    (y : Mb.Sys) (he : hardError e = true) (h : MbRun entry box (tr1 ++ (i, e) :: tr2) y) :
+    (∀ c, (y.st i).pc = .done c → c = 111) ∧ (y.st i).synced = false ∧
+    (Benign (tr1 ++ (i, e) :: tr2) → i ∉ y.order) := by
+  have hf := error_run entry tr1 tr2 i e _ y he h
+  have hnc := failed_not_committed _ hf
+  have hp := pinv_run entry _ _ y (fun j => pinv_init (entry j)) h i
+  refine ⟨fun c hc => failed_done _ hf c hc, ?_, ?_⟩
+  · cases hs : (y.st i).synced with
+    | false => rfl
+    | true => have := hp.2.2.2.1.1 hs; rw [hnc] at this; cases this
+  · intro hb hmem
+    have hinv := run_inv entry box _ _ y (inv_init entry box) hb h
+    have := (hinv.ord i).1 hmem
+    rw [hnc] at this; cases this
+
 /-- the only event that sets `synced`: a successful fsync at the end of the copy with the complete entry written -/
 theorem C12_mbox_synced_by_fsync (entry : Bytes) (s s' : Mb.St) (e : Mb.Ev) (h : Mb.accept entry s e = some s')
     (h0 : s.synced = false) (h1 : s'.synced = true) : e = .fsync true ∧ s.pc = .copy ∧ s.eof = true ∧ s.written = entry := by
@@ -468,6 +492,18 @@ example : mboxRead ([70, 114, 111, 109, 32, 97, 10, 120] ++ mboxEntry [70, 114, 
     = [([70, 114, 111, 109, 32, 97, 10], [120, 70, 114, 111, 109, 32, 98, 10, 82, 10, 68, 10, 109, 10])] := by decide
 
 example : ¬ AtBoundary [70, 114, 111, 109, 32, 97, 10, 120] := by decide
+
+/-- `C12_mbox_error_fails` is not vacuous, at the very shape of the buffer-boundary case: the entry minus its last byte has
+been written, the flush forced by the final one-byte put fails (ENOSPC) — roll-back to `pos`, exit 111, file as before -/
+example : ((Mb.sysRun (fun _ => [70, 10, 82, 10, 10]) { file := [111, 10] }
+    [(0, .openAppend true), (0, .alarm 30), (0, .flock true), (0, .alarm 0), (0, .seekEnd 2), (0, .seekCur 2), (0, .read 3), (0, .read 0),
+     (0, .write [70, 10, 82, 10]), (0, .writeErr false), (0, .ftrunc 2 true), (0, .close), (0, .exit 111)]).map
+      (fun y => ((y.st 0).pc, y.file))) = some (.done 111, [111, 10]) := by decide
+
+/-- … and carrying on after the failed write is not a trace of the model -/
+example : (Mb.sysRun (fun _ => [70, 10, 82, 10, 10]) { file := [111, 10] }
+    [(0, .openAppend true), (0, .alarm 30), (0, .flock true), (0, .alarm 0), (0, .seekEnd 2), (0, .seekCur 2), (0, .read 3), (0, .read 0),
+     (0, .write [70, 10, 82, 10]), (0, .writeErr false), (0, .fsync true)]).isNone = true := by decide
 
 /-- names: 120.7.mx -/
 example : maildirName 120 7 [109, 120, 0, 33] = [49, 50, 48, 46, 55, 46, 109, 120] := by
